@@ -5,6 +5,10 @@
 (* LineGen!LineCases minus the control-flow opcodes, all in one block.     *)
 (* Family "any": lines drawn uniformly; family "shuffle": only pushes and  *)
 (* the stack-shuffling / multi-push opcodes, so positions get scrambled.   *)
+(* One case in four is CUT: after the first `cut` lines `int 7; return`    *)
+(* ends the program and the remaining lines are dead code - still          *)
+(* assembled (version flags, run mode) but in no block of the graph.       *)
+(* nlive = number of lines of the entry block.                             *)
 (***************************************************************************)
 EXTENDS LineGen, Prng, Json, SequencesExt
 CONSTANTS Seed, NCases
@@ -22,8 +26,12 @@ SeqCase(k) ==
         pool == IF fam = "any" THEN SafeSeq ELSE ShuffleSeq
         v   == RndS(Seed, k, 7, 1, 9)                   \* 0: no pragma line
         len == 3 + RndS(Seed, k, 7, 2, 8)
-        lines == [i \in 1..len |-> pool[1 + RndS(Seed, k, 7, 2 + i, Len(pool))]]
-    IN [k |-> k, fam |-> fam, v |-> v, lines |-> lines]
+        drawn == [i \in 1..len |-> pool[1 + RndS(Seed, k, 7, 2 + i, Len(pool))]]
+        cut == IF RndS(Seed, k, 7, 20, 4) = 0 THEN 1 + RndS(Seed, k, 7, 21, len - 1) ELSE 0
+        int7 == CHOOSE c \in LineCases : c.op = "int" /\ c.toks = << "7" >>
+        ret  == CHOOSE c \in LineCases : c.op = "return"
+        lines == IF cut = 0 THEN drawn ELSE SubSeq(drawn, 1, cut) \o << int7, ret >> \o SubSeq(drawn, cut + 1, len)
+    IN [k |-> k, fam |-> fam, v |-> v, lines |-> lines, nlive |-> IF cut = 0 THEN len ELSE cut + 2]
 
 VARIABLE j
 Init == j = 1
